@@ -97,4 +97,14 @@ META = {
         "note": "sequences of length <= 6 are sampled densely (not enumerated exhaustively), longer ones randomly; nil keys excluded",
         "technique": "deterministic simulation: seeded operation sequences + reopen + simulated replication vs reference lifecycle model",
     },
+    "C13": {
+        "text": "Macro simulation on two real replicas: a writer appends up to 12 metadata/message entries, the simulator delivers them "
+                "to a second replica entry by entry, in one batch or mixed; then every (since, until, reverse) combination over "
+                "all entries, the open end and an unknown identifier is listed through the real ListEvents of both stores on both "
+                "replicas and compared with the inclusive slice of the causal order (reversed on request) or the invalid-range error.",
+        "design_ref": "section 5, C13",
+        "note": "single-writer (causally totally ordered) logs, as the statement requires; the RPC wrappers GroupMetadataList/"
+                "GroupMessageList with until_now are not driven (they forward the three parameters unchanged)",
+        "technique": "deterministic simulation: seeded delivery plans to a real replica + exhaustive range enumeration vs causal-order model",
+    },
 }
